@@ -32,8 +32,20 @@ def c01(res):
                              "download through the real process is not a behaviour of the sender specification")
 
 
+def big_flush_script():
+    """a receiver whose window holds more pieces than one vectored write can take (IOV_MAX = 1024)"""
+    w = 1100
+    steps = [{"k": "data", "n": i, "id": i, "sz": "full", "dt": 0} for i in range(1, w + 1)]
+    steps += [{"k": "data", "n": w + 1, "id": w + 1, "sz": "full", "dt": 0}, {"k": "data", "n": w + 5, "id": 5000, "sz": "full", "dt": 0},
+              {"k": "data", "n": w + 2, "id": w + 2, "sz": "short", "dt": 0}]
+    cfg = {"role": "recv", "M": 65536, "W": w, "NB": 0, "R": 1, "T": 2, "chk": False, "clean": True, "base0": 0,
+           "lastempty": False, "devfull": False}
+    return write_vectors("recv-bigflush", [{"cfg": cfg, "steps": steps}])
+
+
 def c02(res):
     res.extra["unbounded_inductive_invariant"] = EX.receiver_inductive()
+    W.run_vectors(res, big_flush_script(), "recv-bigflush", layer=W.WORKER)
     worker_families(res, ["MC_RecvCoreQuick", "MC_RecvPrefill", "MC_RecvWrapReal"], ["MC_RecvCoreFull", "MC_RecvPrefill", "MC_RecvDup", "MC_RecvWrapRealDeep"])
     file_scenario_deviations(res, boundary_transfers(res, "upload", "c02-boundary"), "c02-boundary",
                              "upload through the real process (real socket receive path) is not a behaviour of the receiver specification")
@@ -859,6 +871,15 @@ def concurrent_scenario(res, tag, single, k, rng, rounds):
                     clients.append(X.Upload(srv, "ul-%d-%d" % (rnd, c), name, nb, last, opts=opts,
                                             target=os.path.join(sb.recv, name.decode()),
                                             sock=old_socks.pop() if old_socks and rng.random() < 0.5 else None))
+            # two more clients read ONE shared file; the first gives up with an ERROR after its first
+            # window - which must not take anything away from the second (or from later rounds)
+            shared = b"".join(X.payload(4000 + i, 512 if i < 4 else 99) for i in range(1, 5))
+            open(os.path.join(sb.send, "shared.bin"), "wb").write(shared)
+
+            def quitter(c, burst):
+                return [("err",)]
+            clients.append(X.Download(srv, "dl-%d-quit" % rnd, b"shared.bin", shared, policy=quitter))
+            clients.append(X.Download(srv, "dl-%d-stay" % rnd, b"shared.bin", shared))
             for c in clients:
                 c.start()
             live = [c for c in clients if not c.done]
@@ -890,7 +911,7 @@ def concurrent_scenario(res, tag, single, k, rng, rounds):
                                        "from": ("listener" if addr and addr[1] == srv.port else "worker") if b else "na"})
             for c in clients:
                 xfer_events += c.events
-                if not c.finished_ok:
+                if not c.finished_ok and not c.label.endswith("-quit"):
                     xfer_events.append({"e": "cfg", "role": "send", "M": 65536, "W": 1, "NB": 1, "R": 1, "T": 5,
                                         "chk": False, "clean": True, "base0": 0, "lastempty": False, "devfull": False,
                                         "label": "incomplete:" + c.label, "net": True})
@@ -1544,6 +1565,10 @@ def c18(res):
     rng = random.Random(C.seed())
     W.run_vectors(res, write_vectors("window-random", random_window_scripts(rng, 150 if res.tier == "quick" else 4000)),
                   "window-random-seed%d" % C.seed(), layer=W.WINDOW)
+    # a window larger than one vectored write can take: every piece must reach the file, in order
+    big = {"cfg": {"mode": "w", "size": 1100, "chunk": 1, "flen": 0, "pure": False},
+           "steps": [{"op": "add", "d": [1 + (i % 200)]} for i in range(1100)] + [{"op": "add", "d": [9]}, {"op": "empty"}, {"op": "add", "d": [7, 7]}, {"op": "empty"}]}
+    W.run_vectors(res, write_vectors("window-big", [big]), "window-big", layer=W.WINDOW)
     res.assumptions += ["files are regular files on a local file system; a reader's file is opened read-only, a writer's is created write-only (as the worker does)",
                         "fill() after end of file yields further empty pieces (recorded behaviour; the property constrains the bytes handed out)"]
 
